@@ -30,6 +30,8 @@ import json
 import urllib.parse
 
 import ZConfig
+import ZConfig.datatypes
+import ZConfig.loader
 
 from zcsim import ops
 from zcsim.world import SimWorld
@@ -79,7 +81,8 @@ def _type_xml(t, slots=()):
         a += ' implements="%s"' % t["implements"]
     out = ["  <sectiontype%s>" % a]
     if not t.get("extends") and not t.get("bare"):
-        out.append('    <key name="v" datatype="integer" default="0"/>')
+        out.append('    <key name="v" datatype="%s" default="0"/>'
+                   % t.get("dt", "integer"))
     for s in slots:
         out.append("  " + _slot_xml(s))
     out.append("  </sectiontype>")
@@ -471,6 +474,13 @@ def generate(rng, tier, index):
             b_.pop("bare", None)
             if a_.get("bare"):
                 b_["bare"] = True
+    # the application built its schema with a datatype registry of its own
+    # (an extra datatype registered under a plain name); schema and
+    # components name that datatype
+    plan["app_registry"] = rng.random() < 0.25
+    if plan["app_registry"]:
+        for t_ in plan["types"] + comp_types:
+            t_["dt"] = "zc-int"
     plan["explicit_file"] = rng.random() < 0.4
     for c in plan["components"].values():
         c["explicit_file"] = rng.random() < 0.4
@@ -692,7 +702,13 @@ def execute(plan):
     with SimWorld(packages=plan["packages"]) as w:
         w.store = dict(pkgfiles)
         w.begin_op("load-schema")
-        so = ops.schema_outcome(lambda: ops.load_schema_text(xml, SCHEMA_URL))
+        sloader = None
+        if plan.get("app_registry"):
+            reg = ZConfig.datatypes.Registry()
+            reg.register("zc-int", int)
+            sloader = ZConfig.loader.SchemaLoader(reg)
+        so = ops.schema_outcome(lambda: ops.load_schema_text(
+            xml, SCHEMA_URL, sloader))
         w.end_op("ok" if so["ok"] else so["cls"])
         schema_expected = True
         try:
